@@ -1,6 +1,7 @@
 package main
 
 import (
+	"bytes"
 	"container/heap"
 	"context"
 	"fmt"
@@ -420,6 +421,24 @@ func c04StoreCase(r *Run, idx int, rng *rand.Rand, nKeys, nTicks int, stepMode s
 			gap = time.Duration(1+rng.Intn(3600)) * time.Second
 		case "huge":
 			gap = time.Duration(1+rng.Intn(48)) * time.Hour
+		}
+		if idx%2 == 1 && rng.Intn(3) == 0 {
+			// somewhere between two ticks the cache is handed an empty snapshot taken under its own clock origin (an
+			// application that re-reads its - still empty - snapshot file): nothing is restored, and the deadlines the
+			// cache holds must go on being reclaimed on time. The first part of the gap passes without a tick, so the
+			// wheel may be a finest tick or more behind the clock when LoadCache runs.
+			part := time.Duration(rng.Int63n(int64(gap)))
+			st.VerifShiftClock(part, true)
+			gap -= part
+			if e, err := theine.NewBuilder[int, int64](int64(nKeys) * 4).Build(); err == nil {
+				est := e.VerifStore()
+				est.VerifShiftClock(time.Duration(est.VerifClockStartNano()-st.VerifClockStartNano()), true)
+				var buf bytes.Buffer
+				if est.VerifClockStartNano() == st.VerifClockStartNano() && e.SaveCache(0, &buf) == nil && s.c.LoadCache(0, &buf) == nil {
+					r.Count("store_empty_snapshots_loaded_between_ticks", 1)
+				}
+				e.Close()
+			}
 		}
 		st.VerifShiftClock(gap, true)
 		st.VerifTick()
